@@ -337,4 +337,5 @@ def targets(ctx):
         Target("enum_definitions", def_ev, strategy=def_strat(), quick=400, thorough=5000),
         Target("enum_field_positions", pos_ev, strategy=pos_strat(), quick=500, thorough=6000),
         _seq.target("C20"),
+        *__import__("vf.props._thr", fromlist=["target"]).target(ctx, ['enum_lookups', 'parse:Words']),
     ]
